@@ -32,7 +32,7 @@ impl Property for C14 {
          once and then executed in lock-step under all 9 policies {DoNothing, OnDelay(0 | 1us | 1h) x (Flush | \
          FlushAndFsync), Always(Flush), Always(FlushAndFsync)}; after every call the outcome (position, eviction \
          count, error variant, wal_bytes_written) and the full observable state of each run must equal those of the \
-         reference run (Always(Flush)); after a final drop + open likewise, and the reference must equal the model. \
+         reference run (Always(Flush)); after a final drop + open likewise (purely differential: no model involved). \
          evaluations = (policy, call) pairs compared. non-trivial = history with >= 1 roll-over and >= 1 file unlink; \
          distinct = hash of the concrete op list."
             .to_string()
@@ -65,7 +65,7 @@ impl Property for C14 {
         let mut unlinks = 0u64;
         for sop in &ops {
             let step = exec.step(sop)?;
-            exec.check_outcome(&step)?;
+            exec.usable_or_skip(&step)?;
             for effect in &exec.effects()[step.effects.clone()] {
                 match effect {
                     Effect::Create { .. } => rollovers += 1,
@@ -79,7 +79,6 @@ impl Property for C14 {
             ref_outcomes.push((step.real.outcome.clone(), step.real.wal_bytes));
             ref_states.push(state);
         }
-        exec.check_state("reference run, after final restart")?;
         exec.driver.close()?;
         let cops: Vec<COp> = exec.cops.clone();
         for policy in Policy::ALL {
